@@ -36,6 +36,8 @@ def run(chk: Check) -> None:
         raise AnalysisError(f"serve loop not identified ({len(loops)} `while True` loops containing receive())")
     loop = loops[0]
 
+    run_request_dict(chk, ix, serve, loop)
+
     # ------------- R16.1
     r1 = chk.rule("R16.1", "every exception class that connection I/O or frame decoding may raise inside the serve loop is caught inside the loop by a handler that neither re-raises nor leaves the loop (intended exits identified structurally)", floor=4)
     esc = RS.of_block(loop.body, serve, [])
@@ -257,6 +259,73 @@ def run(chk: Check) -> None:
         r4.ok("writer frames as pack('!L', len(data)) + data; reader unpacks '!L'", wb.loc())
     else:
         r4.violation("writer frames as pack('!L', len(data)) + data; reader unpacks '!L'", wb.loc(), f"header format of writer and reader disagree, or the length written is not len(payload) (reader formats {sorted(unp_fmt)})")
+
+
+def run_request_dict(chk: Check, ix, serve, loop) -> None:
+    """R16.5: the request dict (client-controlled keys) is never indexed/deleted/unpacked unchecked."""
+    def guard_chain(f, node):
+        """(conditions known true, conditions known false) from enclosing if/else arms."""
+        parents = f.module.parents()
+        pos, neg = [], []
+        cur = node
+        while cur is not f.node:
+            p = parents.get(cur)
+            if p is None:
+                break
+            if isinstance(p, ast.If):
+                if any(cur is x for x in p.body):
+                    pos.extend(p.test.values if isinstance(p.test, ast.BoolOp) and isinstance(p.test.op, ast.And) else [p.test])
+                elif any(cur is x for x in p.orelse):
+                    neg.extend(p.test.values if isinstance(p.test, ast.BoolOp) and isinstance(p.test.op, ast.Or) else [p.test])
+            cur = p
+        return pos, neg
+
+    r5 = chk.rule("R16.5", "client-controlled request keys: a subscript / del / pop-without-default on the request dict is guarded by a membership test; **data is passed to a command only after signature binding was checked under `except TypeError`; a rejected 'stop' does not exit", floor=4)
+    rc = ix.func("mypy.dmypy_server.Server.run_command")
+    for f, scope, var in ((serve, loop, "data"), (rc, rc.node, "data")):
+        for n in ast.walk(scope):
+            key = None
+            kind = None
+            if isinstance(n, ast.Subscript) and isinstance(n.value, ast.Name) and n.value.id == var and not isinstance(n.ctx, ast.Store):
+                key, kind = n.slice, "del" if isinstance(n.ctx, ast.Del) else "subscript"
+            elif isinstance(n, ast.Call) and isinstance(n.func, ast.Attribute) and isinstance(n.func.value, ast.Name) and n.func.value.id == var and n.func.attr == "pop" and len(n.args) == 1 and not n.keywords:
+                key, kind = n.args[0], "pop without default"
+            if key is None:
+                continue
+            pos, neg = guard_chain(f, n)
+            kt = norm(key)
+            guarded = any(norm(t) == f"{kt} in {var}" for t in pos) or any(norm(t) == f"{kt} not in {var}" for t in neg)
+            k = f"{f.qualname}: {kind} {var}[{kt}]"
+            if guarded:
+                r5.ok(k, f.loc(n), f"under `{kt} in {var}`")
+            else:
+                r5.violation(k, f.loc(n), f"a request without the key {kt} raises KeyError here; in the serve loop that is reported as a daemon crash and the daemon exits")
+    # **data
+    stars = [c for c in ast.walk(rc.node) if isinstance(c, ast.Call) and any(k.arg is None and norm(k.value) == "data" for k in c.keywords)]
+    calls = [c for c in stars if not (isinstance(c.func, ast.Attribute) and c.func.attr == "bind")]
+    binds = [c for c in stars if isinstance(c.func, ast.Attribute) and c.func.attr == "bind" and "signature(method)" in norm(c.func.value)]
+    if not calls:
+        raise AnalysisError("run_command no longer passes **data to the command method")
+    g = CFG(rc.node, may_raise=lambda c: True)
+    for c in calls:
+        k = f"run_command: {norm(c)} is reached only after the arguments were bound to the command's signature"
+        cn = [x for x in g.nodes if any(y is c for y in x.calls())]
+        bn = [x for x in g.nodes if any(y in binds for y in x.calls())]
+        tries = [t for t in ast.walk(rc.node) if isinstance(t, ast.Try) and any(b is y for b in binds for st in t.body for y in ast.walk(st))]
+        handled = bool(tries) and all(any(h.type is not None and norm(h.type) in ("TypeError", "(TypeError, ValueError)", "Exception") and any(isinstance(x, ast.Return) for x in h.body) and not any(isinstance(x, ast.Raise) for x in ast.walk(h)) for h in t.handlers) for t in tries)
+        if cn and bn and handled and g.must_pass(g.entry, cn, bn):
+            r5.ok(k, rc.loc(c))
+        else:
+            r5.violation(k, rc.loc(c), "a request with a missing or unexpected argument makes the call itself raise TypeError, which serve reports as a crash and re-raises: any client can stop the daemon with one malformed request")
+    # rejected stop
+    exits = [c for c in ast.walk(loop) if isinstance(c, ast.Call) and norm(c.func) == "sys.exit"]
+    for e in exits:
+        pos, neg = guard_chain(serve, e)
+        k = "serve: sys.exit after 'stop' only when the stop command was not rejected"
+        if any(norm(t) == "command == 'stop'" for t in pos) and (any(norm(t) == "'error' in resp" for t in neg) or any(norm(t) == "'error' not in resp" for t in pos)):
+            r5.ok(k, serve.loc(e))
+        else:
+            r5.violation(k, serve.loc(e), "a 'stop' request that run_command rejected (cmd_stop never ran, status file still present) still exits the process")
 
 
 def short_site(origin: str) -> str:
